@@ -106,6 +106,7 @@ Definition K_PROC_ITEM := 15.  Definition K_PROC_DEL := 16.  Definition K_PID :=
 Definition K_POLL := 18.  Definition K_WAIT := 19.  Definition K_KILL := 20.
 Definition K_WQ_PUT := 23.  Definition K_WQ_GET := 24.  Definition K_WQ_EMPTY := 25.  Definition K_EXIT := 26.
 Definition K_CHECK := 27.      (* the watcher enters _check_running *)
+Definition K_GSIG := 28.       (* a signal was sent to the process group of the executor itself (never by this model) *)
 (* MAX_QUEUE_BULKSIZE of Popen._watch: at most that many tasks are pulled from the watch queue per round *)
 Definition bulk : nat := 100.
 Arguments bulk : simpl never.
